@@ -3,27 +3,28 @@
 import json, os
 HERE = os.path.dirname(os.path.dirname(os.path.abspath(__file__)))
 TECH = 'contract-based deductive verification: clang AST of /repo lowered to C each run, CBMC code contracts (requires/ensures/assigns/loop invariants) enforced per function with goto-instrument --dfcc'
-NOTE = ('Trusted: clang 14 AST, tools/cxx2c.py lowering (classes->structs, refs->pointers, RAII dtors explicit), CBMC 6.11 + DFCC + MiniSat, '
-        'callback/logger stubs as the model of user code, bindings between symbolic constants checked on the witness only. See evidence assumptions.')
+NOTE = ('Trusted: clang 14 AST, tools/cxx2c.py lowering (classes->structs, refs->pointers, RAII dtors explicit), CBMC 6.11 + DFCC + CaDiCaL, '
+        'callback/logger stubs as the model of user code, bindings between symbolic constants checked natively on the witness only, contracts restated at a caller\'s abstraction level (evidence: assumed_contracts). '
+        'Both configurations (int payload, no payload type) and states with / without callbacks are witnessed. Thorough tier = quick tier + the bounded plan / constructor units at larger bounds (capacity 7 / 5) + the full-capacity array append. See evidence assumptions.')
 CLAIMED = {
  'C01': dict(ref='4 (C01)', text='Proof: the enter/exit protocol is a ghost automaton (g_entered, g_root_entered) whose transitions are preconditions of every lifecycle callback stub; the machine invariant (one active state = entered state, nothing staged) is re-established by every public operation under contract (R_ initialEnter/finalExit/processRequest/update/react/replayTransition/load, RV_ load) for every state count (CS_ split induction), substitution limit and callback behaviour.'),
  'C02': dict(ref='4 (C02)', text='Proof: request makers have the registry outside their frame and overwrite the single request; R_::processTransitions carries a loop invariant "accepted transition == most recent request not cancelled (ghost survivor), staged destination == its destination" with a decreasing variant; postcondition active == survivor destination reached by exit/enter or reenter, unchanged without survivor. Unbounded in N, L and callback behaviour.'),
  'C03': dict(ref='4 (C03)', text='Proof: guard order and short-circuit as call-site preconditions (!cancelled when consulted), guard evaluation has registry and lifecycle marks outside its frame, veto honoured in every round by the loop invariant of C02; replay/load units have no guard mark in their frame.'),
- 'C04': dict(ref='4 (C04)', text='Proof: loop variant LIMIT - i and ghost round counter (rounds <= LIMIT, activation <= LIMIT + 1), left-over request stays outstanding exactly as issued.'),
+ 'C04': dict(ref='4 (C04)', text='Proof: loop variant LIMIT - i and ghost round counter (rounds <= LIMIT, activation <= LIMIT + 1), left-over request stays outstanding exactly as issued; bounded inlined stand-ins (limit <= 3) independent of how the R_ functions divide the work; static obligations tie SUBSTITUTION_LIMIT / TASK_CAPACITY to the Config aliases the user wrote.'),
  'C05': dict(ref='4 (C05)', text='Proof: per-kind delivery timestamps (ghost clock) give exactly-once and the fixed order root/active/active/root across R_ -> C_ -> CS_ -> S_; stubs require the addressed state to be the active one and the event pointer to be the caller\'s; query has nothing of the machine in its frame.'),
- 'C06': dict(ref='4 (C06)', text='Proof: every control accessor equals the core field it exposes, isActive(id) == (active == id) for all ids in every flavour, scoped origin set/restored, requests record the caller as origin.'),
+ 'C06': dict(ref='4 (C06)', text='Proof: every control accessor equals the core field it exposes, isActive(id) == (active == id) for all ids in every flavour, the type-based forms forward to the id-based ones with that type\'s id, scoped origin set/restored, requests record the caller as origin.'),
  'C07': dict(ref='4 (C07)', text='Proof for the witness payload type (int, all values): constructors copy the payload bytes, request -> pending -> current -> previous are struct copies tracked by ghost copies (g_lastreq, g_surv); bounded in payload type. Known finding F9 (duplicate request dropped) is reported, not hidden.'),
- 'C08': dict(ref='4 (C08)', text='Bounded proof: whole plan walk of FullControlT::updatePlan from any well-formed plan against the statement as a relation (capacity <= 4, states <= 8), status bits and reports for all N.'),
- 'C09': dict(ref='4 (C09)', text='Bounded proof (capacity <= 4): outcome branches of updatePlan and C_::deepUpdatePlans, planExists initialised and cleared.'),
- 'C10': dict(ref='4 (C10)', text='Inductive proof over histories with an executable representation invariant of TaskListT / PlanT; quick tier bounded in capacity (<= 5).'),
+ 'C08': dict(ref='4 (C08)', text='Bounded proof: whole plan walk of FullControlT::updatePlan (both specialisations) from any well-formed plan against the statement as a relation (capacity <= 4 quick / 5 thorough, states <= 8), status bits and reports for all N.'),
+ 'C09': dict(ref='4 (C09)', text='Bounded proof (capacity <= 4 quick / 5 thorough): outcome branches of updatePlan and C_::deepUpdatePlans (both specialisations), PlanDataT::clear*, planExists initialised and cleared, heads that define only one outcome callback.'),
+ 'C10': dict(ref='4 (C10)', text='Inductive proof over histories with an executable representation invariant of TaskListT / PlanT; quick tier bounded in capacity (<= 5), thorough tier <= 7; static obligations tie TASK_CAPACITY to the Config alias.'),
  'C11': dict(ref='4 (C11)', text='Proof: previousTransition == ghost survivor after every processing step and after activation; replayTransition has no guard in its frame; invalid id changes nothing.'),
  'C12': dict(ref='4 (C12)', text='Proof for every state count 1..255: save writes the canonical encoding within 1 + bitWidth(N) bits and nothing of the machine; load decodes it and performs exactly the needed lifecycle step, no guards; canonicity lemma.'),
  'C13': dict(ref='4 (C13)', text='Proof for every stream capacity 1..255, cursor, field width 1..32 (three Item types) and value: write/read/ctors/buffer ops, bitWidth() for every 32-bit argument and its sufficiency. Chunk loops unwound 6x with unwinding assertions (complete by field width).'),
  'C14': dict(ref='4 (C14)', text='Proof by induction over the state list: the CS_ inner node with symbolic offset and size against the same contract for its halves, the leaf against S_; initial state 0; witness skeleton check for the template instantiation structure. access<T>() identity assumed.'),
  'C15': dict(ref='4 (C15)', text='Proof for k = 3 injections (and k = 0): injection timestamps strictly ordered before / after the state\'s own callback on the pre / post side. Bounded in k.'),
- 'C16': dict(ref='4 (C16)', text='Proof: with a logger exactly one method record as the first tick of every delivery, none without; one record with the right arguments per changeTo/changeWith/cancel/succeed/fail; all other proofs hold for logger NULL or not (non-interference).'),
- 'C17': dict(ref='4 (C17)', text='Bounded proof (capacity <= 4): CoreT constructed over arbitrary memory has every field determined; copy constructor equals the source field by field.'),
- 'C18': dict(ref='4 (C18)', text='Proof of memory/arithmetic safety obligations of every unit of C01..C20 (189 units); alignment from the real compilers\' layout (known finding F5); allocation freedom as a static fact.'),
+ 'C16': dict(ref='4 (C16)', text='Proof: with a logger exactly one method record as the first tick of every delivery to a state that defines the callback, none without logger; states that define no / one callback and verbose logging covered by the sparse witness; one record with the right arguments per changeTo/changeWith/cancel/succeed/fail; all other proofs hold for logger NULL or not (non-interference).'),
+ 'C17': dict(ref='4 (C17)', text='Bounded proof (capacity <= 4 quick / 5 thorough): CoreT constructed over arbitrary memory has every field determined; copy constructors of CoreT / R_ / RV_ equal the source field by field (state objects included).'),
+ 'C18': dict(ref='4 (C18)', text='Proof of memory/arithmetic safety obligations of every unit of C01..C20 (about 500 units, both configurations); alignment from the real compilers\' layout (known finding F5); allocation freedom as a static fact.'),
  'C20': dict(ref='4 (C20)', text='Proof, for every capacity 1..255 (symbolic) and every index/bit (ghost index): per-operation postconditions of BitArrayT / StaticArrayT / DynamicArrayT against the set / array model, frames, padding invariant; loops closed by loop contracts.'),
 }
 NA = {
@@ -52,7 +53,7 @@ def main():
         na.append({'property_id': pid, 'reason': NA.get(pid, PENDING)})
     m = {
         'version': 1,
-        'setup_cmd': 'python3 -m py_compile check.py replay.py replay_native.py tools/cxxast.py tools/cxx2c.py tools/unit.py tools/c18_static.py contracts/*.py && clang++ --version >/dev/null && g++ --version >/dev/null && cbmc --version >/dev/null && goto-cc --version >/dev/null && goto-instrument --version >/dev/null',
+        'setup_cmd': 'python3 -m py_compile check.py replay.py replay_native.py tools/cxxast.py tools/cxx2c.py tools/unit.py tools/c18_static.py tools/config_static.py tools/ledgerlib.py contracts/*.py && clang++ --version >/dev/null && g++ --version >/dev/null && cbmc --version >/dev/null && goto-cc --version >/dev/null && goto-instrument --version >/dev/null',
         'hooks': {'guard': 'FFSM2_VERIF', 'enable': 'no source hooks are needed: the checks read /repo through clang -ast-dump=json; the guard name is reserved and unused',
                   'baseline_off_cmd': 'cd /repo && cmake -G Ninja -B _build -S . >/dev/null && cmake --build _build && ctest --test-dir _build -j8 --timeout 900',
                   'source_commits': [], 'add_only': True},
